@@ -110,11 +110,23 @@ def page_walks(draw):
             'configs': cfgs}
 
 
+@st.composite
+def long_ring_cases(draw):
+    case = draw(imagegen.long_rings())
+    d = imagegen.D(draw)
+    case['configs'] = [{'engine': 'native', 'flat': None, 'no_flat': False, 'last_len': None, 'measure': d.pct() < 30},
+                       {'engine': 'native', 'flat': d.choice([None, 7, 100]), 'no_flat': d.pct() < 50, 'last_len': d.choice([1, 10, 64]), 'measure': False},
+                       {'engine': 'native', 'flat': d.choice([3, 600, None]), 'no_flat': d.pct() < 60, 'last_len': None, 'measure': d.pct() < 30},
+                       {'engine': 'fast', 'flat': None, 'no_flat': False, 'last_len': d.choice([None, 10]), 'measure': False}]
+    return case
+
+
 def families(tier):
     q = tier == 'quick'
     return [{'name': 'guided-sparse', 'strategy': cases, 'examples': 1000 if q else 20000},
             {'name': 'assembled-programs', 'strategy': program_cases, 'examples': 12 if q else 400},
-            {'name': 'page-walks', 'strategy': page_walks, 'examples': 12 if q else 400}]
+            {'name': 'page-walks', 'strategy': page_walks, 'examples': 12 if q else 400},
+            {'name': 'long-rings', 'strategy': long_ring_cases, 'examples': 2 if q else 40}]
 
 
 def program_image(case):
@@ -164,7 +176,7 @@ def run_case(case):
         ref = machine.run(w, segs, case['input_bits'], budget=60000)
     else:
         segs = case['segments']
-        ref = machine.run(w, segs, case['input_bits'])
+        ref = machine.run(w, segs, case['input_bits'], **({'budget': 1 << 21} if case.get('kind') == 'longring' else {}))
         path = engines.tmpdir() / 'c07.fjm'
         engines.write_image(path, w, segs, case['version'])
     if ref.cause == machine.BUDGET:
